@@ -4,12 +4,24 @@
 #include "../common/verif.h"
 #include <tbox/util/buffer.h>
 #include <memory>
+#include <new>
+#include <cstdlib>
 
 using namespace verif;
 using tbox::util::Buffer;
 
+// Allocation-failure injection: array allocations of 2 GiB and more fail with std::bad_alloc (as they would on a
+// machine that cannot provide them); everything else goes to malloc(), which the sanitizer still tracks.  Used by
+// the RESERVEFAIL op: a reservation that cannot be satisfied must leave the buffer usable and within its storage.
+static const size_t kAllocLimit = (size_t)1 << 31;
+void *operator new[](size_t n) { if (n >= kAllocLimit) throw std::bad_alloc(); void *p = malloc(n ? n : 1); if (!p) throw std::bad_alloc(); return p; }
+void *operator new[](size_t n, const std::nothrow_t &) noexcept { if (n >= kAllocLimit) return nullptr; return malloc(n ? n : 1); }
+void operator delete[](void *p) noexcept { free(p); }
+void operator delete[](void *p, size_t) noexcept { free(p); }
+void operator delete[](void *p, const std::nothrow_t &) noexcept { free(p); }
+
 namespace {
-enum { CFG, APPEND, RESERVE, FETCH, HASREAD, READALL, SHRINK, COPYCTOR, COPYASSIGN, MOVECTOR, MOVEASSIGN, SWAP, RESET, NOPS };
+enum { CFG, APPEND, RESERVE, FETCH, HASREAD, READALL, SHRINK, COPYCTOR, COPYASSIGN, MOVECTOR, MOVEASSIGN, SWAP, RESET, RESERVEFAIL, NOPS };
 const int64_t kCaps[] = {0, 1, 2, 255, 256, 257, 4096};
 const int kVars = 4;
 
@@ -23,7 +35,7 @@ struct Ctx {
   Var v[kVars];
   uint32_t g = 12345;     // payload generator state
   uint8_t next() { g = g * 1664525u + 1013904223u; return (uint8_t)(g >> 24); }
-  bool compacted = false, grown = false;
+  bool compacted = false, grown = false; int failed_reservations = 0;
 };
 
 // size selection relative to the buffer's current shape
@@ -121,6 +133,17 @@ std::string run(const Scenario &s, CaseInfo &info) {
         x.b->hasWritten(commit);
         x.m += d.substr(0, std::min(commit, fill));   // documented clamp
         break; }
+      case RESERVEFAIL: { name = "failed reservation";
+        // a reservation nobody can satisfy (2^33 .. 2^60 bytes: the allocation fails, see operator new[] above)
+        size_t n = ((size_t)1 << (33 + op.in(1, 0, 27))) + (size_t)op.in(2, 0, 9000);
+        bool ok = false, threw = false;
+        try { ok = x.b->ensureWritableSize(n); } catch (const std::bad_alloc &) { threw = true; }
+        if (ok && !threw) return "ensureWritableSize(" + std::to_string(n) + ") reported success although the allocation cannot have succeeded";
+        c.failed_reservations++;
+        // whatever writable window the buffer advertises now must be its own storage: touch both ends of it
+        size_t w = x.b->writableSize();
+        if (w > 0) { volatile uint8_t *p = x.b->writableBegin(); if (!p) return "writableBegin()==nullptr with writable space after a failed reservation"; p[0] = 0xA5; p[w - 1] = 0x5A; }
+        break; }
       case FETCH: { name = "fetch";
         size_t n = pick_size(x, op.in(1, 0, 9), op.in(2, 0, 9000));
         std::unique_ptr<uint8_t[]> dst(new uint8_t[n ? n : 1]);
@@ -149,14 +172,15 @@ std::string run(const Scenario &s, CaseInfo &info) {
   }
   info.cls_if(c.compacted, "compaction_with_nonzero_read_offset");
   info.cls_if(c.grown, "growth_with_nonzero_read_offset");
+  info.cls_if(c.failed_reservations > 0, "reservation_failed_for_lack_of_memory_then_buffer_used_again");
   info.nontrivial = c.compacted && c.grown;
   return "";
 }
 
 SubDef def = [] {
   SubDef d; d.name = "buffer";
-  d.op_names = {"cfg", "append", "reserve", "fetch", "hasread", "readall", "shrink", "copyctor", "copyassign", "movector", "moveassign", "swap", "reset"};
-  d.op_arity = {4, 3, 5, 3, 3, 1, 1, 2, 2, 2, 2, 2, 1};
+  d.op_names = {"cfg", "append", "reserve", "fetch", "hasread", "readall", "shrink", "copyctor", "copyassign", "movector", "moveassign", "swap", "reset", "reservefail"};
+  d.op_arity = {4, 3, 5, 3, 3, 1, 1, 2, 2, 2, 2, 2, 1, 3};
   d.nt_rule = "history takes both the compaction branch and the growth branch of ensureWritableSize with a non-zero read offset and readable data";
   d.run = run;
 #ifndef VERIF_ENGINE_FUZZ
@@ -178,6 +202,7 @@ SubDef def = [] {
       {1, mkop(MOVEASSIGN, {var, var})},
       {1, mkop(SWAP, {var, var})},
       {1, mkop(RESET, {var})},
+      {1, mkop(RESERVEFAIL, {var, range(0, 27), range(0, 9000)})},
     });
     return scenarioOf(fixedOps({mkop(CFG, {range(0, 6), range(0, 6), range(0, 6), range(0, 6)})}), opsOf(opg));
   };
